@@ -385,6 +385,32 @@ def rule_partition(prog, rep):
             rep.finding("C02.PARTITION", fn.name, "slice-start", "the slice taken by %s does not start at the previous Cursor.index" % nm, fn.loc())
 
 
+def rule_input(prog, rep):
+    """C02.INPUT: the tree can only be lossless if the lexer is given the caller's input itself.
+    Every construction of the lexer inside the parser (Parser::new, Parser::with_* ..) passes the
+    function's own `input` parameter unchanged - not a trimmed, stripped or sliced view of it (a
+    BOM or whitespace removed up front is in no token, and shifts every range)."""
+    rep.floor("C02.INPUT", 1)
+    n = 0
+    for f in sorted(prog.fns.values(), key=lambda g: g.name):
+        if f.crate != "apollo_parser" or not re.search(r"^apollo_parser::parser::", f.name):
+            continue
+        for c in f.live_calls():
+            if not re.search(r"^apollo_parser::lexer::Lexer::<'a>::new$", c.name):
+                continue
+            n += 1
+            a0 = f.sym(c.args[0])
+            ok = re.fullmatch(r"&?\*?arg\d+", a0) is not None and (f.local_ty(int(re.search(r"arg(\d+)", a0).group(1))) or "").startswith("&") and "str" in (f.local_ty(int(re.search(r"arg(\d+)", a0).group(1))) or "")
+            rep.obligation(ok)
+            if ok:
+                rep.instance("C02.INPUT", "%s: the lexer reads the function's own input parameter, unchanged" % "::".join(f.name.split("::")[-2:]))
+            else:
+                rep.finding("C02.INPUT", f.name, "lexer-input",
+                            "the lexer is built from `%s`, not from the input parameter itself: whatever was removed from the input (a BOM, leading whitespace) is in no token of the tree, and every range is shifted" % a0[:100], c.loc())
+    if not n:
+        raise AnchorError("no construction of the lexer found in apollo_parser::parser")
+
+
 def run(prog, rep):
     rule_affine(prog, rep)
     rule_text(prog, rep)
@@ -392,5 +418,6 @@ def run(prog, rep):
     rule_flush(prog, rep)
     rule_who(prog, rep)
     rule_partition(prog, rep)
+    rule_input(prog, rep)
     rep.assume("rowan::GreenNodeBuilder concatenates token texts in insertion order (trusted)")
     rep.assume("losslessness of the standalone type / selection-set trees is not claimed by the property and not decided")
